@@ -1275,3 +1275,13 @@ def py_pow_spec(a, b):
     """spec-level power on (symbolic) numbers: the uninterpreted IEEE power function the code is modelled with"""
     a, b = num(lift(a)), num(lift(b))
     return POWF(Sym(to_real(a), 'real'), Sym(to_real(b), 'real'))
+
+
+def m_math_prod(it, items, start=1):
+    acc = start
+    for x in it.iterate(items):
+        acc = it.binop(ast.Mult, acc, x)
+    return acc
+
+
+BUILTIN_MODELS[_math.prod] = m_math_prod
